@@ -859,7 +859,11 @@ func (v Value) appendJSON(ctx *adt.OpContext, b []byte) ([]byte, error) {
 		//
 		// As an optimization, use the append-like API directly which is equivalent to
 		// [apd.Decimal.MarshalText], allowing us to avoid extra copies.
-		return x.(*adt.Num).X.Append(b, 'G'), nil
+		n := x.(*adt.Num)
+		if n.X.Form != apd.Finite {
+			return nil, marshalErrf(v, x, 0, "cannot convert non-finite number %s to JSON", n.X.String())
+		}
+		return n.X.Append(b, 'G'), nil
 	case adt.StringKind:
 		// Do not use json.Marshal as it escapes HTML.
 		b2, err := internaljson.Marshal(x.(*adt.String).Str)
